@@ -709,13 +709,109 @@ Section TypedTextProofs.
   Hypothesis display_is_number : forall x, ffinite x -> JNumber (fdisplay x).
   Hypothesis parse_display : forall x, ffinite x -> fparse (fdisplay x) = Some x.
 
+  Notation to_json := (to_json F F32 of_int widen).
+  Notation has_type := (has_type F F32).
+  Notation text_ok := (text_ok F F32 of_int widen ffinite).
+
+  (* ---- nesting depth of to_json is bounded by the type ---- *)
+  Fixpoint fields_depth (fs : list (str * option str * ty)) : N :=
+    match fs with [] => 0 | f :: r => N.max (ty_depth (field_ty f)) (fields_depth r) end.
+  Fixpoint tuple_depth (ts : list ty) : N :=
+    match ts with [] => 0 | t' :: r => N.max (ty_depth t') (tuple_depth r) end.
+  Lemma ty_depth_struct fs : ty_depth (TStruct fs) = 1 + fields_depth fs.
+  Proof.
+    cbn [ty_depth]. f_equal.
+    all: induction fs as [|[[id rn] t'] r IH]; [reflexivity|].
+    all: cbn [fields_depth field_ty snd]; rewrite <- IH; reflexivity.
+  Qed.
+  Lemma ty_depth_tuple ts : ty_depth (TTuple ts) = 1 + tuple_depth ts.
+  Proof.
+    cbn [ty_depth]. f_equal.
+    all: induction ts as [|t' r IH]; [reflexivity|].
+    all: cbn [tuple_depth]; rewrite <- IH; reflexivity.
+  Qed.
+
+  Lemma depth_to_json (t : ty) : forall v, depth (to_json t v) <= ty_depth t.
+  Proof.
+    induction t as [| | | | |t' IH|t' IH|fs IH|ts IH|names] using ty_ind'; intro v;
+      try (destruct v; cbn; lia).
+    - destruct v; try (cbn; lia). cbn [JsonTyped.to_json ty_depth]. apply IH.
+    - destruct v; try (cbn; lia). cbn [JsonTyped.to_json ty_depth]. rewrite depth_arr.
+      apply N.add_le_mono_l. induction l as [|x r IHr]; [cbn; lia|].
+      cbn [map]. rewrite depth_list_cons. apply N.max_lub; [apply IH|exact IHr].
+    - destruct v; try (cbn; lia). rewrite to_json_struct, depth_obj, ty_depth_struct.
+      apply N.add_le_mono_l. revert l. induction fs as [|f r IHr]; intros [|x xs]; try (cbn; lia).
+      inversion IH as [|? ? Hf Hr]; subst. cbn [fields_to_json fields_depth]. rewrite depth_members_cons.
+      specialize (IHr Hr xs). specialize (Hf x). lia.
+    - destruct v; try (cbn; lia). rewrite to_json_tuple, depth_arr, ty_depth_tuple.
+      apply N.add_le_mono_l. revert l. induction ts as [|t' r IHr]; intros [|x xs]; try (cbn; lia).
+      inversion IH as [|? ? Hf Hr]; subst. cbn [tuple_to_json tuple_depth]. rewrite depth_list_cons.
+      specialize (IHr Hr xs). specialize (Hf x). lia.
+    - destruct v; try (cbn; lia). cbn [JsonTyped.to_json]. destruct (nth_error names i); cbn; lia.
+  Qed.
+
+  (* ---- to_json of a value with finite numbers and proper strings is serialisable ---- *)
+  Fixpoint names_fields (fs : list (str * option str * ty)) : Prop :=
+    match fs with [] => True | f :: r => str_ok (field_key f) /\ names_all str_ok (field_ty f) /\ names_fields r end.
+  Fixpoint names_tuple (ts : list ty) : Prop :=
+    match ts with [] => True | t' :: r => names_all str_ok t' /\ names_tuple r end.
+  Lemma names_all_struct fs : names_all str_ok (TStruct fs) <-> names_fields fs.
+  Proof.
+    cbn [names_all]. induction fs as [|[[id rn] t'] r IH]; [tauto|].
+    cbn [names_fields field_key field_ty fst snd]. rewrite <- IH. tauto.
+  Qed.
+  Lemma names_all_tuple ts : names_all str_ok (TTuple ts) <-> names_tuple ts.
+  Proof. cbn [names_all]. induction ts as [|t' r IH]; [tauto|]. cbn [names_tuple]. rewrite <- IH. tauto. Qed.
+
+  Lemma to_json_serialisable (t : ty) :
+    names_all str_ok t -> forall v, has_type v t -> text_ok t v -> serialisable F ffinite (to_json t v).
+  Proof.
+    induction t as [| | | | |t' IH|t' IH|fs IH|ts IH|names] using ty_ind'; intros Hn v Ht Hok.
+    - destruct v; cbn in Ht; try contradiction. exact I.
+    - destruct v; cbn in Ht; try contradiction. destruct Hok as [H _]. exact H.
+    - destruct v; cbn in Ht; try contradiction. destruct Hok as [H _]. exact H.
+    - destruct v; cbn in Ht; try contradiction. destruct Hok as [H _]. exact H.
+    - destruct v; cbn in Ht; try contradiction. destruct Hok as [H _]. exact H.
+    - destruct v; cbn in Ht; try contradiction; [exact I|].
+      cbn [JsonTyped.to_json]. destruct Hok as [_ H]. apply IH; [exact Hn|exact Ht|exact H].
+    - destruct v; cbn in Ht; try contradiction. destruct Hok as [_ H]. cbn [JsonTyped.to_json].
+      apply (serialisable_arr F ffinite). rewrite Forall_forall in *. intros j Hj. apply in_map_iff in Hj.
+      destruct Hj as (x & Ex & Hx). subst j. apply IH; [exact Hn|apply Ht; exact Hx|apply H; exact Hx].
+    - destruct v; try (cbn in Ht; contradiction). apply has_type_struct in Ht.
+      apply (val_forall_struct F F32) in Hok. destruct Hok as [_ Hok]. apply names_all_struct in Hn.
+      rewrite to_json_struct. apply (serialisable_obj F ffinite).
+      revert l Ht Hok. induction fs as [|f r IHr]; intros [|x xs] Ht Hok; cbn in Ht; try contradiction; [constructor|].
+      inversion IH as [|? ? Hf Hr]; subst. destruct Hn as (Hk & Hnf & Hnr). destruct Ht as [Ht1 Ht2]. destruct Hok as [Ho1 Ho2].
+      cbn [fields_to_json]. constructor; [cbn [fst snd]; split; [exact Hk|apply Hf; assumption]|apply IHr; assumption].
+    - destruct v; try (cbn in Ht; contradiction). apply has_type_tuple_eq in Ht.
+      apply (val_forall_tuple F F32) in Hok. destruct Hok as [_ Hok]. apply names_all_tuple in Hn.
+      rewrite to_json_tuple. apply (serialisable_arr F ffinite).
+      revert l Ht Hok. induction ts as [|t' r IHr]; intros [|x xs] Ht Hok; cbn in Ht; try contradiction; [constructor|].
+      inversion IH as [|? ? Hf Hr]; subst. destruct Hn as (Hnf & Hnr). destruct Ht as [Ht1 Ht2]. destruct Hok as [Ho1 Ho2].
+      cbn [tuple_to_json]. constructor; [apply Hf; assumption|apply IHr; assumption].
+    - destruct v; cbn in Ht; try contradiction. cbn [JsonTyped.to_json].
+      destruct (nth_error names i) as [vr|] eqn:E; [|exact I].
+      cbn [names_all] in Hn. rewrite Forall_forall in Hn. apply (Hn vr). eapply nth_error_In. exact E.
+  Qed.
+
   Theorem typed_text_roundtrip (t : ty) (v : rval F F32) :
-    wf_ty t -> has_type F F32 v t -> lossless F F32 of_int f2z t v ->
-    serialisable F ffinite (to_json F F32 of_int widen t v) -> depth (to_json F F32 of_int widen t v) <= MAX_DEPTH ->
+    wf_ty t -> has_type v t -> lossless F F32 of_int f2z t v ->
+    serialisable F ffinite (to_json t v) -> depth (to_json t v) <= MAX_DEPTH ->
     from_str F F32 f2z narrow fparse t (to_string F F32 of_int widen fdisplay t v) = Ok v.
   Proof.
     intros Hwf Ht Hl Hs Hd. unfold from_str, to_string, parse.
     rewrite (JsonProofs.roundtrip F fparse fdisplay ffinite display_is_number parse_display MAX_DEPTH _ Hs Hd).
     apply (typed_roundtrip_iff F F32 of_int f2z widen narrow narrow_widen t Hwf v Ht). exact Hl.
+  Qed.
+
+  (* the same with hypotheses that can be read off the declaration and the value *)
+  Theorem typed_text_roundtrip_decl (t : ty) (v : rval F F32) :
+    wf_ty t -> has_type v t -> lossless F F32 of_int f2z t v ->
+    names_all str_ok t -> text_ok t v -> ty_depth t <= MAX_DEPTH ->
+    from_str F F32 f2z narrow fparse t (to_string F F32 of_int widen fdisplay t v) = Ok v.
+  Proof.
+    intros Hwf Ht Hl Hn Hok Hd. apply typed_text_roundtrip; try assumption.
+    - apply to_json_serialisable; assumption.
+    - eapply N.le_trans; [apply depth_to_json|exact Hd].
   Qed.
 End TypedTextProofs.
